@@ -215,3 +215,15 @@ Definition nothing_dropped_full : Prop := forall c name, c <= 4 -> In name (ctx_
 Definition s_visit_local_variables : str := [118; 105; 115; 105; 116; 95; 108; 111; 99; 97; 108; 95; 118; 97; 114; 105; 97; 98; 108; 101; 115].
 Theorem local_variables_visited : mem_str s_visit_local_variables code_visits = true.
 Proof. vm_compute. reflexivity. Qed.
+
+(* ---------------------------------------------------------------------------------------------- *)
+(* header: every class file version of the JVMS (45.0 .. 67.0, minor 0 or 65535 from 56 on, any minor
+   below) passes the gate, nothing above 67.0 does *)
+Theorem header_gate mg minor major : minor < 65536 ->
+  (header_ok mg minor major = true <-> mg = 3405691582 /\ (major < 67 \/ (major = 67 /\ minor = 0))).
+Proof.
+  intros Hm. unfold header_ok, version_le, magic, max_version_major, max_version_minor.
+  rewrite andb_true_iff, orb_true_iff, andb_true_iff, N.eqb_eq, N.ltb_lt, N.eqb_eq, N.leb_le. split.
+  - intros [-> [H|[-> H]]]; split; try reflexivity; [left; exact H|right; split; [reflexivity|lia]].
+  - intros [-> [H|[-> ->]]]; split; try reflexivity; [left; exact H|right; split; [reflexivity|lia]].
+Qed.
